@@ -2,8 +2,9 @@
 (***************************************************************************)
 (* Gen use of EnterLeave.tla: an initial event with any subset of the two *)
 (* totals (or none: the default model), then 10..MaxOps events in random  *)
-(* directions, some carrying totals (often equal to a plausible current   *)
-(* one), and resets.                                                      *)
+(* directions (enter / leave / unspecified), each total drawn relative to *)
+(* the model's current counter (absent, equal, +1, -1, far away,          *)
+(* absolute), "echo" events cloned from the last event read, and resets.  *)
 (***************************************************************************)
 EXTENDS EnterLeave, TLC, Json
 
@@ -15,10 +16,15 @@ Flip(z, pct) == RandomElement(1..100) <= pct
 Pick(z, seq) == seq[RandomElement(1..Len(seq))]
 OptTotal(z, pct) == IF Flip(z, pct) THEN Some(R(0..12)) ELSE None
 
+\* a total the event carries, RELATIVE to the model's counter at that moment (resolved by the harness):
+\* absent, the current value, current +/- 1, far away (current + 7), or an absolute value
+Rel(z) == LET how == Pick(z, <<"absent", "absent", "current", "current", "current+1", "current-1", "far", "abs">>)
+          IN [how |-> how, v |-> R(0..12)]
+\* echo: the event is the last event read (GetEnterLeaveEvent) with only the direction set -- both current totals
 Op(z) ==
   LET op == Pick(z, <<"Event", "Event", "Event", "Event", "Event", "Event", "Event", "Event", "Reset">>)
   IN [op |-> op, dir |-> Pick(z, <<"ENTER", "ENTER", "LEAVE", "LEAVE", "DIRECTION_UNSPECIFIED">>),
-      se |-> OptTotal(z, 25), sl |-> OptTotal(z, 25)]
+      echo |-> Flip(z, 15), se |-> Rel(z), sl |-> Rel(z)]
 
 Prog(k) ==
   LET hasInit == Flip(k, 70)
